@@ -310,15 +310,22 @@ def r04_4(ctx, prog, crate):
         names = {z.a for z in ret if z.kind == "call"}
         fields = {z.b for z in ret if z.kind == "param"}
         ctx.check(fields == {(field,)}, "R04.4", [fn, "reads-own-field"], "%s() reads %s" % (fn, sorted(fields)), b.where(0))
+        # the returned value is made of the option's own content, converted, or the default - stated over the sources of the
+        # value, whichever Option combinator (map + unwrap_or, map_or, a match ...) spells it
+        consts = {str(z.a) for z in ret if z.kind == "const"}
+        other = {n for n in names if not (n.startswith("std::option::Option::") or n.endswith("::from") or n.endswith("::into") or n.endswith("::default"))}
+        ctx.check(not other, "R04.4", [fn, "option-or-default-only"], "%s() computes its value with %s" % (fn, sorted(other)), b.where(0))
         if dflt == "default":
-            ctx.check("std::option::Option::unwrap_or_default" in names, "R04.4", [fn, "defaults-to-zero"], "%s() default: calls %s" % (fn, sorted(names)), b.where(0))
+            zero = "std::option::Option::unwrap_or_default" in names or any(n.endswith("::default") for n in names) or \
+                any(z.kind == "fnitem" and str(z.a).endswith("::default") for z in ret)
+            ctx.check(zero and not consts, "R04.4", [fn, "defaults-to-zero"], "%s() default: calls %s consts %s" % (fn, sorted(names), sorted(consts)), b.where(0))
             dd = prog.body("<time::fine_duration::FineDuration as std::default::Default>::default", crate)
             ctx.check(dd is not None, "R04.4", [fn, "FineDuration-default"], "no Default for FineDuration", None)
         else:
-            consts = {str(z.a) for z in ret if z.kind == "const"}
-            ctx.check("std::option::Option::unwrap_or" in names and any("FineDuration::MAX" in c for c in consts), "R04.4", [fn, "defaults-to-MAX"],
+            ctx.check(consts == {"time::fine_duration::FineDuration::MAX"} and "std::option::Option::unwrap_or_default" not in names, "R04.4", [fn, "defaults-to-MAX"],
                       "%s() default: calls %s consts %s" % (fn, sorted(names), sorted(consts)), b.where(0))
-        ctx.check(any(z.kind == "fnitem" and z.a.endswith("::from") for z in ret) or "std::option::Option::map" in names, "R04.4", [fn, "converted-from-Duration"],
+        ctx.check(any(z.kind == "fnitem" and z.a.endswith("::from") for z in ret) or any(n.endswith("::from") or n.endswith("::into") for n in names) or
+                  any(c.callee.endswith("::from") or c.callee.endswith("::into") for k in prog.children(b) for c in k.live_calls()), "R04.4", [fn, "converted-from-Duration"],
                   "%s() does not convert the Duration" % fn, b.where(0))
     mx = prog.bodies.get((crate, "time::fine_duration::FineDuration::MAX", -1))
     if ctx.anchor("R04.4", "FineDuration::MAX", 1 if mx else 0, 1):
